@@ -107,6 +107,12 @@ CHECKS = {
    design="5 (C10), 4.9",
    note="comments are compared as whitespace-normalised text; the widths of the formatter are not varied (Formatter::default)",
    technique="TLC-generated programs x styles + repository files, trace validation of formatter records against the Format.tla acceptor"),
+ "C20": dict(
+   level="exploration",
+   text="Thin use of the family: Lang.tla programs (complete, and with one Mutate.tla edit - a deleted token or a truncation - when the result still typechecks) are queried at every byte offset with type-at-position, completion, signature help, metadata and symbol listing; no query may panic; at every variable occurrence the reported type must be the type Lang.tla's typing gives that variable and every suggested local name must be one of the binders Lang.tla has in scope there. The per-program records are validated by TLC against the acceptor Editor.tla.",
+   design="5 (C20), 4.10",
+   note="inputs the checker rejects are not queried (the salvaged tree is not reachable through the API used); expected types come from the generator's monomorphic typing",
+   technique="TLC-generated typed programs with known scopes and types + exhaustive cursor positions, records validated against the Editor.tla acceptor"),
 }
 NOT_BUILT = "check not built yet (work in progress; see DESIGN.md section 5)"
 NA = {}
